@@ -1,5 +1,6 @@
 //! C02 / C17 / C18 on whole proofs: mutate accepted proofs position by position and run the real verifier.
 use crate::cmd_stark::Verdict;
+use crate::cmd_table::annotate_all;
 use crate::mutate::*;
 use crate::real;
 use crate::toy::{prove, Params, Strategy};
@@ -50,9 +51,9 @@ pub fn subjects(n_toy: u64, with_real: bool, rng: &mut Rng) -> Vec<Subject> {
     out
 }
 
-struct Job { subj: usize, path: Path, kind: &'static str, value: Option<Value> }
+struct Job { subj: usize, path: Path, kind: &'static str, value: Option<Value>, trace: bool }
 
-/// C02. args: <out.ndjson> <n_toy> <real: none|sample|all> <per_class_sample>
+/// C02. args: <out.ndjson> <n_toy> <real: none|sample|all> <per_class_sample> [trace.ndjson]
 pub fn run_tamper(args: &[String]) {
     let mut out = Out::file(&args[0]);
     let n_toy: u64 = args[1].parse().unwrap();
@@ -82,16 +83,16 @@ pub fn run_tamper(args: &[String]) {
             }
             for p in ps {
                 let cur = get(&s.proof, &p).clone();
-                jobs.push(Job { subj: si, path: p.clone(), kind: "plus1", value: Some(replace_plus_one(&cur)) });
+                jobs.push(Job { subj: si, path: p.clone(), kind: "plus1", value: Some(replace_plus_one(&cur)), trace: false });
                 let rv = replace_with(&cur, rng.felt(), rng.below(200));
-                if rv != cur { jobs.push(Job { subj: si, path: p.clone(), kind: "random", value: Some(rv) }); }
+                if rv != cur { jobs.push(Job { subj: si, path: p.clone(), kind: "random", value: Some(rv), trace: false }); }
                 let z = replace_with(&cur, Felt::ZERO, 0);
-                if z != cur { jobs.push(Job { subj: si, path: p.clone(), kind: "zero", value: Some(z) }); }
+                if z != cur { jobs.push(Job { subj: si, path: p.clone(), kind: "zero", value: Some(z), trace: false }); }
                 // same low bits, different high bits (digest widths 160 / 248): only meaningful for field elements of the witness / messages
                 if cur.is_string() && (path_str(&p).starts_with("witness") || path_str(&p).starts_with("unsent")) {
                     for (k, name) in [(160u64, "hi160"), (248u64, "hi248")] {
                         let f = Felt::from_hex(cur.as_str().unwrap()).unwrap() + Felt::TWO.pow(k);
-                        jobs.push(Job { subj: si, path: p.clone(), kind: name, value: Some(json!(format!("{:#x}", f))) });
+                        jobs.push(Job { subj: si, path: p.clone(), kind: name, value: Some(json!(format!("{:#x}", f))), trace: false });
                     }
                 }
             }
@@ -99,8 +100,19 @@ pub fn run_tamper(args: &[String]) {
         for a in arrays {
             let len = get(&s.proof, &a).as_array().unwrap().len();
             let idxs: Vec<usize> = if len == 0 { vec![] } else if len <= 6 || (!sample && len <= 64) { (0..len).collect() } else { vec![0, len / 2, len - 1, rng.below(len as u64) as usize] };
-            for i in idxs { let mut p = a.clone(); p.push(Seg::Idx(i)); jobs.push(Job { subj: si, path: p, kind: "delete", value: None }); }
-            let mut p = a.clone(); p.push(Seg::Idx(len)); jobs.push(Job { subj: si, path: p, kind: "append", value: None });
+            for i in idxs { let mut p = a.clone(); p.push(Seg::Idx(i)); jobs.push(Job { subj: si, path: p, kind: "delete", value: None, trace: false }); }
+            let mut p = a.clone(); p.push(Seg::Idx(len)); jobs.push(Job { subj: si, path: p, kind: "append", value: None, trace: false });
+        }
+    }
+    // a recorded run of one replaced and one deleted position per (subject, class): the trace must be a behaviour of Trace_Stark,
+    // i.e. the verifier stops at the first check that fails and never continues past a failed decommitment
+    let mut trace_out = args.get(4).map(|p| Out::file(p));
+    if trace_out.is_some() {
+        let mut seen: std::collections::BTreeSet<(usize, String, &'static str)> = Default::default();
+        for j in jobs.iter_mut() {
+            if j.kind != "plus1" && j.kind != "delete" { continue; }
+            let cls = if j.kind == "delete" { class_of(&j.path[..j.path.len() - 1].to_vec()) + "[]" } else { class_of(&j.path) };
+            if seen.insert((j.subj, cls, j.kind)) { j.trace = true; }
         }
     }
     let results = par_map(&jobs, n_threads(), |_, j| {
@@ -108,16 +120,37 @@ pub fn run_tamper(args: &[String]) {
         let mut v = s.proof.clone();
         match j.kind {
             "delete" => { let (arr, idx) = (j.path[..j.path.len() - 1].to_vec(), match j.path.last().unwrap() { Seg::Idx(i) => *i, _ => 0 }); get_mut(&mut v, &arr).as_array_mut().unwrap().remove(idx); }
-            "append" => { let arr = j.path[..j.path.len() - 1].to_vec(); let a = get_mut(&mut v, &arr).as_array_mut().unwrap(); let e = a.last().cloned(); if let Some(e) = e { a.push(e); } else { return ("skip".to_string(), String::new()); } }
+            "append" => { let arr = j.path[..j.path.len() - 1].to_vec(); let a = get_mut(&mut v, &arr).as_array_mut().unwrap(); let e = a.last().cloned(); if let Some(e) = e { a.push(e); } else { return ("skip".to_string(), String::new(), Vec::new()); } }
             _ => { *get_mut(&mut v, &j.path) = j.value.clone().unwrap(); }
         }
-        let p: StarkProof = match serde_json::from_value(v) { Ok(p) => p, Err(e) => return ("undeserialisable".into(), format!("{e}")) };
+        let p: StarkProof = match serde_json::from_value(v) { Ok(p) => p, Err(e) => return ("undeserialisable".into(), format!("{e}"), Vec::new()) };
+        if j.trace {
+            let (verdict, events, _) = if s.layout == "toy" { crate::cmd_stark::verify_toy(&p, s.sb, Some(20_000_000), true) } else { real::verify_as(&s.layout, &p, s.sb, Some(20_000_000), true) };
+            let mut tl: Vec<Value> = Vec::new();
+            if !matches!(verdict, Verdict::Panic(_) | Verdict::Fuel) {
+                let case = json!({"subject": s.id, "path": path_str(&j.path), "mutation": j.kind});
+                let built = guarded(|| {
+                    let mut tl: Vec<Value> = Vec::new();
+                    if s.layout == "toy" { crate::cmd_stark::trace_lines(&mut tl, case.clone(), &p, &s.sb, &events, &verdict); }
+                    else {
+                        let mut r = json!({"ev":"reset"}); r["case"] = case.clone(); tl.push(r);
+                        tl.push(crate::cmd_real::proof_event_for(&s.layout, &p, &s.sb));
+                        for e in annotate_all(&events) { tl.push(e); }
+                        tl.push(json!({"ev":"result","ok": matches!(verdict, Verdict::Accept(..)), "program_hash": "0x0", "output_hash": "0x0"}));
+                    }
+                    tl
+                });
+                if let Ok(b) = built { tl = b; }
+            }
+            return (verdict.tag().to_string(), verdict.detail(), tl);
+        }
         let (verdict, _) = verify_subject(&s.layout, &p, s.sb, Some(20_000_000));
-        (verdict.tag().to_string(), verdict.detail())
+        (verdict.tag().to_string(), verdict.detail(), Vec::new())
     });
+    if let Some(t) = trace_out.as_mut() { for (_, _, tl) in &results { for l in tl { t.line(l); } } }
     let mut per: std::collections::BTreeMap<(String, String), (u64, u64, u64)> = Default::default();
     let (mut total, mut accepted) = (0u64, 0u64);
-    for (j, (tag, detail)) in jobs.iter().zip(results.iter()) {
+    for (j, (tag, detail, _)) in jobs.iter().zip(results.iter()) {
         if tag == "skip" { continue; }
         let s = &subs[j.subj];
         let lay = if s.layout == "toy" { "toy" } else { "real" };
